@@ -1,5 +1,6 @@
 import Bxh.Proofs.LedgerLemmas
 import Bxh.Proofs.LedgerRollback
+import Bxh.Gen.JournalWindow
 /-!
 # C12 — rolling back to a retained height restores exactly that height's state
 Theorems about `rollback`, `commit`, `pruneJournals` of `Bxh.Ledger`
@@ -229,5 +230,9 @@ example : ∃ l1 l2, commit (flush exH exL).1 (exL.maxJ + 1) (flush exH exL).2 =
     l1.db.state = [((1, "k2"), "w")] ∧ l2.db.state = [((1, "k"), "v")] ∧ l2.db.acct = [(1, exI15)] := by
   refine ⟨_, _, rfl, rfl, ?_, ?_, ?_⟩ <;> decide
 end Example
+
+/-- the journal window the model prunes with is the one `Commit` is written with (the literal of `if height > N` and of
+`removeJournalsBeforeBlock(height - N)`, extracted on every run) -/
+theorem C12_journal_window_as_in_the_source : Bxh.Ledger.journalWindow = Bxh.Gen.journalWindow := by decide
 
 end Bxh.Props.C12
